@@ -27,8 +27,12 @@
    those of the requests queued (`reqs`) and on the wire (`out`).  PoolConserved: pool and outstanding ids partition
    Tids, no id is out twice.  NeverStarves: with every earlier lookup answered the pool is full, so a new lookup
    always gets an id.  A lookup is abandoned only by the end of the link, where the whole component dies (resolve()
-   returns None from then on and never draws again).  `sent` (tid -> name) is never pruned by the code: an entry
-   stays until its id is drawn again and the new request is collected.  GiveBack = FALSE is the deliberately wrong
+   returns None from then on and never draws again).  `sent` (tid -> name) here is a history of what was recorded under
+   each id: an entry stays until its id is drawn again and the new request is collected.  (The code did the same until nfcpy
+   96e3631; since then it removes the entry when the answer is taken, so that an answer the peer REPEATS is ignored instead
+   of putting the id into the pool a second time - that history, a misbehaving peer, is outside this model, which lets the
+   peer answer each request once; it is executed by C07 part C.  The model's pool is a set, the binding additionally
+   checks on the real list that no id is in it twice.)  GiveBack = FALSE is the deliberately wrong
    variant (the answered lookup keeps its id): the (N+1)-th uncached lookup of a link finds the pool empty.         *)
 EXTENDS Integers, Sequences, SequencesExt, FiniteSets, TLC
 
